@@ -226,6 +226,30 @@ theorem propMerge_fst_name {cv : Conv V} {k : Bool} {d s m' : PropT V} {out : Ou
   have := propMerge_name cv k d s
   rw [h] at this; exact this
 
+/-! ## The record flag of a merge (`Ref.record`, `Ref.eff`, `Ref.pick`) -/
+
+theorem Ref.pick_on {α : Type} (r : Ref) (h : r.record = true) (x y : α) : r.pick x y = x := by
+  simp [Ref.pick, h]
+
+theorem Ref.pick_off {α : Type} (r : Ref) (h : r.record = false) (x y : α) : r.pick x y = y := by
+  simp [Ref.pick, h]
+
+theorem resolved_of_not_merged (a : SecAttrs) (h : a.merged = none) : a.resolved = false := by
+  simp [SecAttrs.resolved, h]
+
+/-- a merge that is to be recorded, into a Section whose link / include is not resolved: the flag
+    stays on and the reference is handed on as it is -/
+theorem Ref.eff_on (r : Ref) (a : SecAttrs) (hr : r.record = true) (ha : a.resolved = false) :
+    r.eff a = r := by
+  cases r; simp_all [Ref.eff]
+
+theorem Ref.eff_record_on (r : Ref) (a : SecAttrs) (hr : r.record = true) (ha : a.resolved = false) :
+    (r.eff a).record = true := by rw [Ref.eff_on r a hr ha]; exact hr
+
+/-- into a Section whose link / include is resolved nothing is recorded -/
+theorem Ref.eff_record_off (r : Ref) (a : SecAttrs) (ha : a.resolved = true) :
+    (r.eff a).record = false := by simp [Ref.eff, ha]
+
 /-! ## Lookups of other names are not affected by the loops -/
 
 theorem mergeSecs_find_other (cv : Conv V) (k : Bool) (os : List (Sec V)) :
@@ -524,7 +548,7 @@ theorem merge_ok_of_check (cv : Conv V) (k : Bool) :
         unfold merge
         rw [hck]
         simp only [hcl0, Bool.false_eq_true, if_false]
-        have h1 := mergeSecs_ok_of_check cv k ss r d.secs hwfs
+        have h1 := mergeSecs_ok_of_check cv k ss (r.eff d.attrs) d.secs hwfs
           (fun o ho mine hf => ⟨hty'.2 mine (findSec_some hf).1, (hcl o ho).1 mine hf, hcs o ho mine hf⟩)
           (fun o ho hf => (hcl o ho).2 hf)
         have h2 := mergeProps_ok cv k sp d.props hnd hh
@@ -878,14 +902,18 @@ theorem mergeProps_result (cv : Conv V) (k : Bool) (os : List (PropT V)) :
 theorem merge_ok_shape (cv : Conv V) (k : Bool) (r : Ref) (d s : Sec V)
     (h : (merge cv k r d s).2 = .ok) :
     mergeCheck cv k d s = .ok ∧
-    (mergeSecs cv k r d.secs s.secs).2 = .ok ∧ (mergeProps cv k d.props s.props).2 = .ok ∧
+    (mergeSecs cv k (r.eff d.attrs) d.secs s.secs).2 = .ok ∧ (mergeProps cv k d.props s.props).2 = .ok ∧
     (merge cv k r d s).1 =
       .mk { d.attrs with definition := fillText d.attrs.definition s.attrs.definition
                          reference := fillText d.attrs.reference s.attrs.reference
-                         filledDef := recFill d.attrs.definition s.attrs.definition d.attrs.filledDef
-                         filledRef := recFill d.attrs.reference s.attrs.reference d.attrs.filledRef
-                         merged := some r }
-          (mergeProps cv k d.props s.props).1 (mergeSecs cv k r d.secs s.secs).1 := by
+                         filledDef := (r.eff d.attrs).pick
+                           (recFill d.attrs.definition s.attrs.definition d.attrs.filledDef)
+                           d.attrs.filledDef
+                         filledRef := (r.eff d.attrs).pick
+                           (recFill d.attrs.reference s.attrs.reference d.attrs.filledRef)
+                           d.attrs.filledRef
+                         merged := (r.eff d.attrs).pick (some r) d.attrs.merged }
+          (mergeProps cv k d.props s.props).1 (mergeSecs cv k (r.eff d.attrs) d.secs s.secs).1 := by
   cases s with
   | mk sa sp ss =>
     unfold merge at h ⊢
@@ -963,7 +991,7 @@ theorem mergeProps_keeps (cv : Conv V) (k : Bool) (os : List (PropT V)) :
 /-- the child lists of the result of `merge`, whatever the outcome -/
 theorem merge_lists (cv : Conv V) (k : Bool) (r : Ref) (d s : Sec V) :
     ((merge cv k r d s).1.secs = d.secs ∨
-      (merge cv k r d s).1.secs = (mergeSecs cv k r d.secs s.secs).1) ∧
+      (merge cv k r d s).1.secs = (mergeSecs cv k (r.eff d.attrs) d.secs s.secs).1) ∧
     ((merge cv k r d s).1.props = d.props ∨
       (merge cv k r d s).1.props = (mergeProps cv k d.props s.props).1) := by
   cases s with
@@ -1201,7 +1229,7 @@ theorem merge_covers (cv : Conv V) (k : Bool) :
     unfold Covers
     simp only [Sec.props_mk, Sec.secs_mk] at hsh ⊢
     exact ⟨(mergeProps_names cv k sp d.props hsh.2.2.1).2,
-           mergeSecs_covers cv k ss r d.secs hwf.2.2 hsh.2.1⟩
+           mergeSecs_covers cv k ss (r.eff d.attrs) d.secs hwf.2.2 hsh.2.1⟩
 theorem mergeSecs_covers (cv : Conv V) (k : Bool) :
     ∀ (os : List (Sec V)) (r : Ref) (dsecs : List (Sec V)), wfSecs cv os = true →
       (mergeSecs cv k r dsecs os).2 = .ok → CoversList (mergeSecs cv k r dsecs os).1 os
